@@ -9,6 +9,7 @@ import TlsModel.Conn
                                               -> <out> <state of that endpoint>
     st <c|s>                                  -> - <state>
     hsfault <steps> <i> <eof|reset|pipe> <pendingAlertDesc|->   -> <exc|none> closed res complete
+    hsalert <level> <desc>                                     -> <exc> closed res complete
   msg: app <hex> | ku <v> | nst | creq <ctx> <0|1> | cert <ctx> <chain> | cv <a> <c> <s> | fin <ok>
        | hso <t> | hsm <t> | hb <mt> <hex> <pad> | hbbad | alert <lvl> <desc> | ccs | empty | unk
 -/
@@ -141,6 +142,12 @@ def handle (w : World) : List String → World × Option String
         (w, some s!"{match r.exc with | some e => e.str | none => "none"} closed={bit r.closed} res={bit r.resumable} complete={bit r.complete}")
       | none => (w, none)
     | _, _, _ => (w, none)
+  | ["hsalert", lvl, d] =>
+    match lvl.toNat?, d.toNat? with
+    | some lvl, some d =>
+      let r := hsAlert lvl d
+      (w, some s!"{match r.exc with | some e => e.str | none => "none"} closed={bit r.closed} res={bit r.resumable} complete={bit r.complete}")
+    | _, _ => (w, none)
   | _ => (w, none)
 
 end Tls.Conn
